@@ -173,10 +173,18 @@ pub fn replay_json(trace: &Trace, fault: Option<(u64, bool)>) -> Value {
 
 /// Replays one (trace, fault) pair.
 pub fn run_replay(tv: &Value, known: &HashSet<String>, scratch: &std::path::Path) -> (Option<Violation>, Option<String>, u64, Counters) {
+    if let Some(sd) = tv["config_probe_seed"].as_str() {
+        let (v, c) = config_probes(scratch, sd.parse().unwrap_or(0));
+        return (v, None, 0, c);
+    }
     let trace = match Trace::from_json(tv) {
         Some(t) => t,
         None => return (None, Some("bad trace".into()), 0, Counters::default()),
     };
+    if let Some(sd) = tv["config_probe_seed"].as_str() {
+        let (v, c) = config_probes(scratch, sd.parse().unwrap_or(0));
+        return (v, None, 0, c);
+    }
     if tv["storage_fault"]["layer"].as_str() == Some("exit") {
         let r = run_crash(&trace, tv["storage_fault"]["k"].as_u64().unwrap_or(1), scratch);
         return (r.violation, r.harness_error, 0, r.counters);
@@ -660,4 +668,99 @@ pub fn crash_replay_json(trace: &Trace, k: u64) -> Value {
     j["engine"] = json!("e1store");
     j["storage_fault"] = json!({"layer": "exit", "k": k});
     j
+}
+
+// ------------------------------------------------------------------------------------------------
+// Storage configurations: every documented option, valid and invalid, must give a working tree or a clean
+// error (never a panic), and a tree created under one configuration must reopen under another.
+// ------------------------------------------------------------------------------------------------
+
+pub fn config_probes(scratch: &std::path::Path, seed: u64) -> (Option<Violation>, Counters) {
+    use rln::public::RLN;
+    use std::io::Cursor;
+    let mut c = Counters::default();
+    let _ = std::fs::remove_dir_all(scratch);
+    let _ = std::fs::create_dir_all(scratch);
+    let mut rng = Prng::new(seed);
+    let mk = |clause: &str, detail: String| Violation { prop: "C16".into(), node: "rlnp".into(), step: 0, op_kind: "config".into(), clause: clause.to_string(), detail };
+    let path = scratch.join("cfg-tree");
+    let p = path.to_str().unwrap().to_string();
+    let depth = 3usize;
+    // 1. a tree with content under a first configuration
+    let cfg_a = json!({"tree_config": {"path": p, "temporary": false, "cache_capacity": *rng.pick(&[1024u64, 150000, 1 << 30]), "flush_every_ms": *rng.pick(&[None, Some(50u64), Some(12000)]), "mode": *rng.pick(&["HighThroughput", "LowSpace"]), "use_compression": false}}).to_string();
+    let v = fr_from_le(&rng.bytes(32));
+    let root_a;
+    {
+        let mut r = match guarded(|| RLN::new(depth, Cursor::new(cfg_a.clone()))) {
+            Ok(Ok(r)) => r,
+            Ok(Err(e)) => return (Some(mk("valid_config_rejected", format!("{cfg_a}: {e}"))), c),
+            Err(pn) => return (Some(mk("config_panic", format!("{cfg_a}: {pn}"))), c),
+        };
+        let _ = r.set_leaf(5, Cursor::new(fr_to_le32(&v).to_vec()));
+        let _ = r.set_metadata(b"cfg");
+        if let Err(e) = r.flush() {
+            return (Some(mk("flush_failed", e.to_string())), c);
+        }
+        let mut w = Vec::new();
+        let _ = r.get_root(&mut w);
+        root_a = w;
+    }
+    wait_unlocked(&path);
+    c.inc("oracle_evaluations");
+    // 2. reopen under a different (valid) configuration: same content
+    let cfg_b = json!({"tree_config": {"path": p, "temporary": false, "cache_capacity": *rng.pick(&[1024u64, 4096, 1 << 20]), "flush_every_ms": *rng.pick(&[None, Some(50u64)]), "mode": *rng.pick(&["HighThroughput", "LowSpace", "Unknown"])}}).to_string();
+    {
+        let r = match guarded(|| RLN::new(depth, Cursor::new(cfg_b.clone()))) {
+            Ok(Ok(r)) => r,
+            Ok(Err(e)) => return (Some(mk("reopen_under_other_config_failed", format!("{cfg_b}: {e}"))), c),
+            Err(pn) => return (Some(mk("config_panic", format!("{cfg_b}: {pn}"))), c),
+        };
+        let mut w = Vec::new();
+        let _ = r.get_root(&mut w);
+        let mut l = Vec::new();
+        let _ = r.get_leaf(5, &mut l);
+        let mut md = Vec::new();
+        let _ = r.get_metadata(&mut md);
+        if w != root_a || l != fr_to_le32(&v) || md != b"cfg" {
+            return (Some(mk("content_changed_under_other_config", format!("created under {cfg_a}, reopened under {cfg_b}: root/leaf/metadata differ"))), c);
+        }
+        c.inc("oracle_evaluations");
+        c.inc("reach.reopened_under_other_config");
+    }
+    wait_unlocked(&path);
+    // 3. invalid or unsupported configurations: a clean error, the stored tree untouched
+    let bad: Vec<String> = vec![
+        json!({"tree_config": {"path": p, "temporary": false, "use_compression": true}}).to_string(),
+        json!({"tree_config": {"path": p, "temporary": true}}).to_string(),
+        "{\"tree_config\": {\"path\": 5}}".to_string(),
+        "{\"tree_config\": \"x\"}".to_string(),
+        "not json".to_string(),
+        json!({"tree_config": {"path": p, "temporary": false, "cache_capacity": "big"}}).to_string(),
+    ];
+    for b in &bad {
+        match guarded(|| RLN::new(depth, Cursor::new(b.clone())).map(|_| ())) {
+            Err(pn) => return (Some(mk("config_panic", format!("{b}: {pn}"))), c),
+            Ok(_) => {
+                c.inc("oracle_evaluations");
+                c.inc("reach.odd_config_probed");
+            }
+        }
+        wait_unlocked(&path);
+    }
+    // the stored tree is still what it was
+    {
+        let r = match guarded(|| RLN::new(depth, Cursor::new(cfg_a.clone()))) {
+            Ok(Ok(r)) => r,
+            Ok(Err(e)) => return (Some(mk("reopen_failed_after_odd_configs", e.to_string())), c),
+            Err(pn) => return (Some(mk("config_panic", pn)), c),
+        };
+        let mut w = Vec::new();
+        let _ = r.get_root(&mut w);
+        if w != root_a {
+            return (Some(mk("content_changed_by_odd_config", "an open attempt with an invalid/unsupported configuration changed the stored tree".to_string())), c);
+        }
+        c.inc("oracle_evaluations");
+    }
+    let _ = std::fs::remove_dir_all(scratch);
+    (None, c)
 }
